@@ -12,6 +12,14 @@ use tyme4rs::tyme::jd::JulianDay;
 pub fn dispatch(check: &str, lo: i64, hi: i64, seed: u64, thorough: bool, out: &mut Out) -> bool {
   match check {
     "c01_calendar_years" => c01_calendar_years(lo, hi, out),
+    "l_new" => l_new(lo, hi, out),
+    "l_td" => l_td(lo, hi, out),
+    "c02_solar_side" => c02_solar_side(lo, hi, out),
+    "c02_lunar_side" => c02_lunar_side(lo, hi, out),
+    "c06_day_term" => c06_day_term(lo, hi, out),
+    "c06_time_term" => c06_time_term(lo, hi, seed, out),
+    "c06_term_step" => c06_term_step(lo, hi, out),
+    "c07_pillar_week" => c07_pillar_week(lo, hi, out),
     _ => return false,
   }
   true
@@ -40,5 +48,348 @@ fn c01_calendar_years(lo: i64, hi: i64, out: &mut Out) {
       }
     }
     if y == lo { out.sample(format!("year {}: all 14x33 candidates", y)); }
+  }
+}
+
+
+// ---------------------------------------------------------------------------------------------
+// L-NEW: leaf contract of LunarMonth::new over every lunation of lunar years lo..=hi
+//   Ok <=> m in +-1..12 and (m<0 => |m| == leap(y)); index_in_year sequential; day_count in {29,30};
+//   first day integral (x.5); TILING: first(next month) == first + day_count, also across the year end;
+//   year length 353..355 / 383..385; 12/13 months; leap(y) in 0..12
+// ---------------------------------------------------------------------------------------------
+pub fn months_of(y: isize) -> Vec<isize> {
+  let leap = LunarYear::from_year(y).get_leap_month() as isize;
+  let mut v = vec![];
+  for m in 1..=12isize { v.push(m); if m == leap { v.push(-m); } }
+  v
+}
+
+fn l_new(lo: i64, hi: i64, out: &mut Out) {
+  for y in lo..=hi {
+    let y = y as isize;
+    let leap = match guard(|| LunarYear::from_year(y).get_leap_month()) { Some(l) => l as isize, None => { out.fail(format!("leap:{}", y), "panic".into()); continue; } };
+    out.evaluations += 1;
+    if leap < 0 || leap > 12 { out.fail(format!("leap:{}", y), format!("leap month {}", leap)); continue; }
+    // refusals
+    for m in [0isize, 13, -13, 14, -14] {
+      out.evaluations += 1;
+      match guard(|| LunarMonth::new(y, m).is_ok()) { Some(false) => {}, r => out.fail(format!("accept:{}:{}", y, m), format!("{:?}", r)) }
+    }
+    for k in 1..=12isize {
+      out.evaluations += 1;
+      let want = k == leap;
+      match guard(|| LunarMonth::new(y, -k).is_ok()) { Some(b) if b == want => {}, r => out.fail(format!("accept:{}:{}", y, -k), format!("{:?} want {}", r, want)) }
+    }
+    let ms = months_of(y);
+    let mut prev: Option<(isize, f64, usize)> = None;
+    let mut total: usize = 0;
+    let mut first_of_year = 0.0;
+    for (i, &m) in ms.iter().enumerate() {
+      out.evaluations += 1;
+      let lm = match guard(|| LunarMonth::new(y, m)) { Some(Ok(v)) => v, r => { out.fail(format!("new:{}:{}", y, m), format!("refused/panic {:?}", r.map(|x| x.is_ok()))); continue; } };
+      let first = lm.get_first_julian_day().get_day();
+      let dc = lm.get_day_count();
+      if i == 0 { first_of_year = first; }
+      if lm.get_year() != y || lm.get_month_with_leap() != m || lm.is_leap() != (m < 0) || lm.get_month() as isize != m.abs() {
+        out.fail(format!("fields:{}:{}", y, m), format!("{} {}", lm.get_year(), lm.get_month_with_leap()));
+      }
+      if lm.get_index_in_year() != i { out.fail(format!("index:{}:{}", y, m), format!("index_in_year {} want {}", lm.get_index_in_year(), i)); }
+      if dc != 29 && dc != 30 { out.fail(format!("len:{}:{}", y, m), format!("day_count {}", dc)); }
+      if first.fract() != 0.0 { out.fail(format!("integral:{}:{}", y, m), format!("first jd {}", first)); }
+      if let Some((pm, pf, pdc)) = prev {
+        if pf + pdc as f64 != first { out.fail(format!("tiling:{}:{}", y, m), format!("month {} starts at {} + {} days but month {} starts at {}", pm, pf, pdc, m, first)); }
+      }
+      prev = Some((m, first, dc));
+      total += dc;
+    }
+    // across the year end
+    if y < 9999 {
+      out.evaluations += 1;
+      if let (Some((pm, pf, pdc)), Some(Ok(n))) = (prev, guard(|| LunarMonth::new(y + 1, 1))) {
+        let nf = n.get_first_julian_day().get_day();
+        if pf + pdc as f64 != nf { out.fail(format!("tiling:{}:{}", y + 1, 1), format!("month {} of {} starts at {} + {} days but month 1 of {} starts at {}", pm, y, pf, pdc, y + 1, nf)); }
+        if nf - first_of_year != total as f64 { out.fail(format!("yearlen:{}", y), format!("new-year distance {} but months sum to {}", nf - first_of_year, total)); }
+      }
+    }
+    let want_count = if leap > 0 { 13 } else { 12 };
+    if ms.len() != want_count { out.fail(format!("count:{}", y), format!("{}", ms.len())); }
+    let ok_len = if leap > 0 { total >= 383 && total <= 385 } else { total >= 353 && total <= 355 };
+    if !ok_len { out.fail(format!("yeardays:{}", y), format!("{} days with leap {}", total, leap)); }
+    if y == lo as isize { out.sample(format!("lunar year {}: leap {}, {} months, {} days", y, leap, ms.len(), total)); }
+  }
+}
+
+// ---------------------------------------------------------------------------------------------
+// L-TD / L-TI: term days and instants, k = 24*y + i for y in lo..=hi
+//   term day TD(k) valid date, strictly increasing, 14 <= TD(k+1)-TD(k) <= 16; instants strictly
+//   increasing 14.6..15.8 days apart; civil day of the instant == TD(k); from_index year/index carry
+// ---------------------------------------------------------------------------------------------
+fn l_td(lo: i64, hi: i64, out: &mut Out) {
+  let mut prev: Option<(i64, f64)> = None;
+  // start one term before lo's first so that the chunk boundaries are covered too
+  let start_k = if lo <= 1 { 25 } else { lo * 24 - 1 };
+  let end_k = hi * 24 + 23;
+  for k in start_k..=end_k {
+    let y = spec::ediv(k, 24) as isize;
+    let i = spec::emod(k, 24) as isize;
+    out.evaluations += 1;
+    let t = match guard(|| SolarTerm::from_index(y, i)) { Some(t) => t, None => { out.fail(format!("term:{}:{}", y, i), "panic".into()); prev = None; continue; } };
+    if t.get_year() != y || t.get_index() as isize != i { out.fail(format!("termfields:{}:{}", y, i), format!("{} {}", t.get_year(), t.get_index())); }
+    let jd = t.get_julian_day().get_day();
+    let day = match guard(|| t.get_julian_day().get_solar_day()) { Some(d) => d, None => { if y >= 1 && y <= 9999 { out.fail(format!("termday:{}:{}", y, i), "panic".into()); } prev = None; continue; } };
+    let n = spec::jdn(day.get_year() as i64, day.get_month() as i64, day.get_day() as i64);
+    // civil day of the instant rounded to the nearest second (the library's JD -> clock conversion rounds)
+    if (jd + 0.5 + 0.5 / 86400.0).floor() as i64 != n { out.fail(format!("termday_of_instant:{}:{}", y, i), format!("jd {} day {}", jd, n)); }
+    if let Some((pn, pjd)) = prev {
+      let gap = n - pn;
+      if gap < 14 || gap > 16 { out.fail(format!("tdgap:{}:{}", y, i), format!("term day gap {}", gap)); }
+      let g = jd - pjd;
+      if !(g >= 14.6 && g <= 15.8) { out.fail(format!("tigap:{}:{}", y, i), format!("term instant gap {}", g)); }
+    }
+    prev = Some((n, jd));
+    if k == start_k + 1 { out.sample(format!("term {} of {}: jd {} day {}", i, y, jd, day)); }
+  }
+}
+
+
+// helpers -------------------------------------------------------------------------------------
+pub fn jdn_sd(d: &SolarDay) -> i64 { spec::jdn(d.get_year() as i64, d.get_month() as i64, d.get_day() as i64) }
+
+/// every valid civil date of year y, in order
+pub fn dates_of_year(y: i64) -> Vec<(i64, i64, i64)> {
+  let mut v = vec![];
+  for m in 1..=12 { for d in 1..=31 { if spec::valid_date(y, m, d) { v.push((y, m, d)); } } }
+  v
+}
+
+/// table of lunar month starts (day numbers) for lunar years lo-1..=hi+1, from LunarMonth::new (cache-free leaf)
+pub struct MonthRow { pub y: isize, pub m: isize, pub first: i64, pub count: i64 }
+pub fn month_table(lo: isize, hi: isize) -> Vec<MonthRow> {
+  let mut v = vec![];
+  for y in lo..=hi {
+    if y < 0 || y > 9999 { continue; }
+    for m in months_of(y) {
+      if let Some(Ok(lm)) = guard(|| LunarMonth::new(y, m)) {
+        v.push(MonthRow { y, m, first: lm.get_first_julian_day().get_day() as i64, count: lm.get_day_count() as i64 });
+      }
+    }
+  }
+  v
+}
+
+// ---------------------------------------------------------------------------------------------
+// C02 solar side: every civil date of years lo..=hi
+//   lunar date L = get_lunar_day(): first(L.month) + L.day - 1 == jdn ; 1 <= L.day <= count ; maps back;
+//   consecutive civil days -> day+1 in the same month, or day 1 of the month that follows
+// ---------------------------------------------------------------------------------------------
+fn c02_solar_side(lo: i64, hi: i64, out: &mut Out) {
+  let mut prev: Option<(isize, isize, usize)> = None;
+  for y in lo..=hi {
+    for (yy, m, d) in dates_of_year(y) {
+      out.evaluations += 1;
+      let sd = SolarDay::from_ymd(yy as isize, m as usize, d as usize);
+      let n = spec::jdn(yy, m, d);
+      let ld = match guard(|| sd.get_lunar_day()) { Some(l) => l, None => { out.fail(format!("s2l:{}-{}-{}", yy, m, d), "panic".into()); prev = None; continue; } };
+      let lm = ld.get_lunar_month();
+      let first = lm.get_first_julian_day().get_day() as i64;
+      if first + ld.get_day() as i64 - 1 != n || ld.get_day() < 1 || ld.get_day() > lm.get_day_count() {
+        out.fail(format!("s2l:{}-{}-{}", yy, m, d), format!("lunar {} (month starts {}, {} days) but day number {}", ld, first, lm.get_day_count(), n));
+      }
+      match guard(|| ld.get_solar_day()) {
+        Some(b) => if b != sd { out.fail(format!("s2l2s:{}-{}-{}", yy, m, d), format!("lunar {} maps back to {}", ld, b)); },
+        None => out.fail(format!("s2l2s:{}-{}-{}", yy, m, d), "panic".into()),
+      }
+      let cur = (ld.get_year(), ld.get_month(), ld.get_day());
+      if let Some(p) = prev {
+        let same = p.0 == cur.0 && p.1 == cur.1 && cur.2 == p.2 + 1;
+        let mut next_month = false;
+        if cur.2 == 1 {
+          if let Some(nm) = guard(|| LunarMonth::from_ym(p.0, p.1).next(1)) {
+            next_month = nm.get_year() == cur.0 && nm.get_month_with_leap() == cur.1 && p.2 == LunarMonth::from_ym(p.0, p.1).get_day_count();
+          }
+        }
+        if !(same || next_month) { out.fail(format!("consec:{}-{}-{}", yy, m, d), format!("lunar {:?} follows {:?}", cur, p)); }
+      }
+      prev = Some(cur);
+    }
+    if y == lo { out.sample(format!("civil year {}: every date -> lunar -> civil", y)); }
+  }
+}
+
+// ---------------------------------------------------------------------------------------------
+// C02 lunar side: every lunar (y, m, d) of lunar years lo..=hi
+//   accepted <=> 1 <= d <= count ; from_ymd(..).get_solar_day().get_lunar_day() == same ;
+//   is_before / is_after agree with chronological order for all pairs drawn from a month and the
+//   two months that follow (first/middle/last day of each)
+// ---------------------------------------------------------------------------------------------
+fn c02_lunar_side(lo: i64, hi: i64, out: &mut Out) {
+  for y in lo..=hi {
+    let y = y as isize;
+    let ms = months_of(y);
+    let mut picks: Vec<(isize, isize, usize, i64)> = vec![];
+    for &m in ms.iter() {
+      let lm = match guard(|| LunarMonth::from_ym(y, m)) { Some(v) => v, None => { out.fail(format!("lm:{}:{}", y, m), "panic".into()); continue; } };
+      let cnt = lm.get_day_count();
+      for d in [0usize, cnt + 1] {
+        out.evaluations += 1;
+        match guard(|| LunarDay::new(y, m, d).is_ok()) { Some(false) => {}, r => out.fail(format!("laccept:{}:{}:{}", y, m, d), format!("{:?}", r)) }
+      }
+      for d in 1..=cnt {
+        out.evaluations += 1;
+        let ld = match guard(|| LunarDay::new(y, m, d)) { Some(Ok(v)) => v, _ => { out.fail(format!("laccept:{}:{}:{}", y, m, d), "refused".into()); continue; } };
+        let sd = match guard(|| ld.get_solar_day()) { Some(v) => v, None => { if y >= 1 { out.fail(format!("l2s:{}:{}:{}", y, m, d), "panic".into()); } continue; } };
+        let n = jdn_sd(&sd);
+        if n != lm.get_first_julian_day().get_day() as i64 + d as i64 - 1 { out.fail(format!("l2s:{}:{}:{}", y, m, d), format!("civil {} but month starts at {}", sd, lm.get_first_julian_day().get_day())); }
+        match guard(|| sd.get_lunar_day()) {
+          Some(b) => if b != ld { out.fail(format!("l2s2l:{}:{}:{}", y, m, d), format!("civil {} maps back to {}", sd, b)); },
+          None => out.fail(format!("l2s2l:{}:{}:{}", y, m, d), "panic".into()),
+        }
+        if d == 1 || d == 15 || d == cnt { picks.push((y, m, d, n)); }
+      }
+    }
+    // ordering among neighbouring months (window of 9 picks = 3 months)
+    for i in 0..picks.len() {
+      for j in i..usize::min(i + 9, picks.len()) {
+        out.evaluations += 1;
+        let (a, b) = (&picks[i], &picks[j]);
+        let la = LunarDay::from_ymd(a.0, a.1, a.2);
+        let lb = LunarDay::from_ymd(b.0, b.1, b.2);
+        let before = guard(|| la.is_before(lb.clone()));
+        let after = guard(|| la.is_after(lb.clone()));
+        let rbefore = guard(|| lb.is_before(la.clone()));
+        let rafter = guard(|| lb.is_after(la.clone()));
+        if before != Some(a.3 < b.3) || after != Some(a.3 > b.3) || rbefore != Some(b.3 < a.3) || rafter != Some(b.3 > a.3) {
+          out.fail(format!("order:{}:{}:{}~{}:{}", y, a.1, a.2, b.1, b.2), format!("a<b {:?}/{} a>b {:?}/{} b<a {:?} b>a {:?}", before, a.3 < b.3, after, a.3 > b.3, rbefore, rafter));
+        }
+      }
+    }
+    if y as i64 == lo { out.sample(format!("lunar year {}: every lunar day -> civil -> lunar; order over {} picks", y, picks.len())); }
+  }
+}
+
+// term day numbers TD(k) for k in 24*(lo)..=24*(hi+1)+2, by from_index (L-TD leaf)
+pub fn term_days(lo: i64, hi: i64) -> (i64, Vec<i64>) {
+  let k0 = if lo <= 1 { 25 } else { lo * 24 - 2 };
+  let k1 = (hi + 1) * 24 + 3;
+  let mut v = vec![];
+  for k in k0..=k1 {
+    let y = spec::ediv(k, 24) as isize;
+    let i = spec::emod(k, 24) as isize;
+    let d = guard(|| SolarTerm::from_index(y, i).get_julian_day().get_solar_day()).map(|d| jdn_sd(&d)).unwrap_or(i64::MAX);
+    v.push(d);
+  }
+  (k0, v)
+}
+
+// ---------------------------------------------------------------------------------------------
+// C06 day -> term: every civil date of years lo..=hi (1 <= lo, hi <= 9998)
+//   get_term_day() = (term k, index) with TD(k) <= jdn < TD(k+1) and index == jdn - TD(k) <= 16
+// ---------------------------------------------------------------------------------------------
+fn c06_day_term(lo: i64, hi: i64, out: &mut Out) {
+  let (k0, td) = term_days(lo, hi);
+  let mut kk: usize = 0;
+  for y in lo..=hi {
+    for (yy, m, d) in dates_of_year(y) {
+      let n = spec::jdn(yy, m, d);
+      while kk + 1 < td.len() && td[kk + 1] <= n { kk += 1; }
+      if td[kk] > n { continue; } // before the first tabulated term (only the first days of year 1)
+      out.evaluations += 1;
+      let want_k = k0 + kk as i64;
+      let sd = SolarDay::from_ymd(yy as isize, m as usize, d as usize);
+      match guard(|| { let t = sd.get_term_day(); (t.get_solar_term().get_year(), t.get_solar_term().get_index(), t.get_day_index()) }) {
+        Some((ty, ti, idx)) => {
+          let k = ty as i64 * 24 + ti as i64;
+          if k != want_k || idx as i64 != n - td[kk] || idx > 16 {
+            out.fail(format!("dayterm:{}-{}-{}", yy, m, d), format!("term ({},{}) index {} ; want term k={} index {}", ty, ti, idx, want_k, n - td[kk]));
+          }
+        }
+        None => out.fail(format!("dayterm:{}-{}-{}", yy, m, d), "panic".into()),
+      }
+    }
+    if y == lo { out.sample(format!("civil year {}: every date -> (term, day index)", y)); }
+  }
+}
+
+fn lcg(s: &mut u64) -> u64 { *s = s.wrapping_mul(6364136223846793005).wrapping_add(1442695040888963407); *s >> 33 }
+
+// ---------------------------------------------------------------------------------------------
+// C06 instant -> term: for every term of years lo..=hi: the term instant itself, one second before,
+//   one second after, and one pseudo-random instant inside the interval -> latest term starting on/before
+// ---------------------------------------------------------------------------------------------
+fn c06_time_term(lo: i64, hi: i64, seed: u64, out: &mut Out) {
+  let mut rng = seed ^ 0x9e3779b97f4a7c15 ^ (lo as u64) << 20;
+  for y in lo..=hi {
+    for i in 0..24i64 {
+      let k = y * 24 + i;
+      if k < 26 { continue; }
+      let t = SolarTerm::from_index(y as isize, i as isize);
+      let nt = t.next(1);
+      let ti = match guard(|| t.get_julian_day().get_solar_time()) { Some(v) => v, None => continue };
+      let tn = match guard(|| nt.get_julian_day().get_solar_time()) { Some(v) => v, None => continue };
+      let span = tn.subtract(ti);
+      let r = 2 + (lcg(&mut rng) as isize % (span - 4));
+      for (off, wantk) in [(0isize, k), (-1, k - 1), (1, k), (r, k), (span - 1, k)] {
+        out.evaluations += 1;
+        let inst = ti.next(off);
+        if inst.get_year() < 1 || inst.get_year() > 9998 { continue; }
+        match guard(|| { let g = inst.get_term(); g.get_year() as i64 * 24 + g.get_index() as i64 }) {
+          Some(g) => if g != wantk { out.fail(format!("timeterm:{}:{}:{}", y, i, off), format!("instant {} -> term k={} want {}", inst, g, wantk)); },
+          None => out.fail(format!("timeterm:{}:{}:{}", y, i, off), "panic".into()),
+        }
+      }
+    }
+    if y == lo { out.sample(format!("year {}: 24 terms x (instant, -1s, +1s, random, last second)", y)); }
+  }
+}
+
+// C06: stepping a term by n equals constructing the term n places later (window -50..50 and +-24k)
+fn c06_term_step(lo: i64, hi: i64, out: &mut Out) {
+  for y in lo..=hi {
+    for i in 0..24i64 {
+      let t = SolarTerm::from_index(y as isize, i as isize);
+      for n in [-49isize, -25, -24, -23, -1, 0, 1, 23, 24, 25, 47, 48, 240, -240] {
+        let k = y * 24 + i + n as i64;
+        if k < 24 || k > 9999 * 24 + 23 { continue; }
+        out.evaluations += 1;
+        let a = t.next(n);
+        let b = SolarTerm::from_index(spec::ediv(k, 24) as isize, spec::emod(k, 24) as isize);
+        let c = SolarTerm::from_index(y as isize, i as isize + n);
+        if a.get_year() != b.get_year() || a.get_index() != b.get_index() || a.get_cursory_julian_day() != b.get_cursory_julian_day()
+           || c.get_year() != b.get_year() || c.get_index() != b.get_index() || c.get_cursory_julian_day() != b.get_cursory_julian_day() {
+          out.fail(format!("termstep:{}:{}:{}", y, i, n), format!("next -> ({},{}) from_index(y,i+n) -> ({},{}) want ({},{})", a.get_year(), a.get_index(), c.get_year(), c.get_index(), b.get_year(), b.get_index()));
+        }
+      }
+    }
+  }
+}
+
+// ---------------------------------------------------------------------------------------------
+// C07: every civil date of years lo..=hi: day pillar == (jdn+49) mod 60 by all three routes,
+//   weekday == (jdn+1) mod 7 by both routes
+// ---------------------------------------------------------------------------------------------
+fn c07_pillar_week(lo: i64, hi: i64, out: &mut Out) {
+  for y in lo..=hi {
+    for (yy, m, d) in dates_of_year(y) {
+      out.evaluations += 1;
+      let n = spec::jdn(yy, m, d);
+      let sd = SolarDay::from_ymd(yy as isize, m as usize, d as usize);
+      let wp = spec::pillar_of(n) as usize;
+      let ww = spec::weekday_of(n) as usize;
+      let w1 = sd.get_week().get_index();
+      if w1 != ww { out.fail(format!("week:{}-{}-{}", yy, m, d), format!("weekday {} want {}", w1, ww)); }
+      let r = guard(|| {
+        let ld = sd.get_lunar_day();
+        (ld.get_sixty_cycle().get_index(), ld.get_sixty_cycle_day().get_sixty_cycle().get_index(), sd.get_sixty_cycle_day().get_sixty_cycle().get_index(), ld.get_week().get_index())
+      });
+      match r {
+        Some((a, b, c, w2)) => {
+          if a != wp || b != wp || c != wp { out.fail(format!("pillar:{}-{}-{}", yy, m, d), format!("lunar route {} lunar->sixty-cycle-day {} civil->sixty-cycle-day {} want {}", a, b, c, wp)); }
+          if w2 != ww { out.fail(format!("lweek:{}-{}-{}", yy, m, d), format!("lunar weekday {} want {}", w2, ww)); }
+        }
+        None => out.fail(format!("pillar:{}-{}-{}", yy, m, d), "panic".into()),
+      }
+    }
+    if y == lo { out.sample(format!("civil year {}: pillar by 3 routes + weekday by 2 routes", y)); }
   }
 }
